@@ -500,7 +500,7 @@ static Case gen_c09()
   {
     c.set("kind", "handles");
     c.seti("enc", g::range(0, 2));
-    c.seti("slots", g::range(2, 5));
+    c.seti("slots", g::coin(65) ? g::range(2, 5) : g::range(5, 13)); // up to 12 handles with different keys alive at once
     c.seti("ops", g::range(6, 40));
     c.set("seed", std::to_string(g::u64()));
     return c;
